@@ -24,6 +24,7 @@
 #include <stdarg.h>
 #include <ctype.h>
 #include <signal.h>
+#include <sys/time.h>
 #include <sys/stat.h>
 
 #define BUFSZ (1u << 20)
@@ -625,7 +626,7 @@ int main(int argc, char **argv)
   snprintf(WD, sizeof WD, "%s", argv[1]);
   mkdir(WD, 0777);
   snprintf(DD, sizeof DD, "%s/d", WD);
-  signal(SIGALRM, on_alarm);
+  signal(SIGALRM, on_alarm); signal(SIGPROF, on_alarm);
   setvbuf(stdout, NULL, _IOLBF, 0);
   while (fgets(line, sizeof line, stdin)) {
     char *cmd = strtok(line, " \t\n"), *rest;
@@ -672,9 +673,9 @@ int main(int argc, char **argv)
         int e, lvl;
         if (n > 1) { snapshot(0); hb = fnv(14695981039346656037ull, SN, SNlen);
           if (verbose && k == 0) { printf("BEFORE\n"); fwrite(SN, 1, SNlen, stdout); printf("ENDDUMP\n"); } }
-        alarm(30);
-        if (call(name)) { printf("UNKNOWN-OP %s\n", name); alarm(0); break; }
-        alarm(0);
+        { struct itimerval it_; memset(&it_, 0, sizeof it_); it_.it_value.tv_sec = 30; setitimer(ITIMER_PROF, &it_, NULL); }
+        if (call(name)) { printf("UNKNOWN-OP %s\n", name); { struct itimerval it_; memset(&it_, 0, sizeof it_); setitimer(ITIMER_PROF, &it_, NULL); } break; }
+        { struct itimerval it_; memset(&it_, 0, sizeof it_); setitimer(ITIMER_PROF, &it_, NULL); }
         if (RSKIP) { printf("SKIP\n"); break; }
         e = gd_error(D); lvl = D->recurse_level;
         if (k == 0) { ret0 = RET; err0 = e; if (n > 1) printf("FIRST R %lld E %d\n", RET, e); }
